@@ -97,6 +97,21 @@ def falsify(ctx, case: Dict) -> bool:
         bad = {"relation": "raises", "exc": type(e).__name__, "stage": stage, "form": form}
         if form != "object":
             bad["kinds"] = sorted({s["kind"] for s in specs})[:1]
+        if stage in ("calculate", "append"):
+            # not a difference if a standalone twin fed the same schedule raises the same exception
+            # (e.g. a lifespan that trims away a look-back: C15's hypothesis, not C08's subject)
+            for s, tf in zip(specs, tfs):
+                eff = {"tf": tf or hcfg.get("tf"), "fill": hcfg.get("fill"), "ha": hcfg.get("ha"), "lifespan": hcfg.get("lifespan")}
+                try:
+                    with core.time_limit(30):
+                        alone = X.build(s, X.mk_rows(rows[:init_n]), eff)
+                        alone.calculate()
+                        for ch in case["chunks"]:
+                            alone.append(X.mk_rows(ch))
+                except Exception as e2:  # noqa
+                    if type(e2).__name__ == type(e).__name__:
+                        bad = None
+                        break
     if bad:
         ctx.fail(bad, f"specs={specs} tfs={tfs} hcfg={hcfg} form={form} n={len(rows)} init={init_n}: {bad}",
                  {"case": case}, size=len(rows))
